@@ -5,6 +5,7 @@ Proof/KernelsBlock — byte decomposition of a word and the 8-word block popcoun
 import SuccinctlyVerif.Proof.Kernels
 namespace SV.Kernels
 open SV SV.KList
+attribute [local simp] SV.Kernels.wordBits_length
 
 theorem range8 : List.range 8 = [0,1,2,3,4,5,6,7] := by decide
 theorem range64 : List.range 64 = [0,1,2,3,4,5,6,7,8,9,10,11,12,13,14,15,16,17,18,19,20,21,22,23,24,25,26,27,28,29,30,31,32,33,34,35,36,37,38,39,40,41,42,43,44,45,46,47,48,49,50,51,52,53,54,55,56,57,58,59,60,61,62,63] := by decide
